@@ -235,6 +235,7 @@ Definition lstep (hs : lhandlers) (a : action) (k : lcore) : option (obs * lcore
                   | _ => k end in
         Some (ONone, lset_req i (mkLR (lr_tag r) (lr_val r) (lr_kind r) (lr_cell r) true) k1)
       end
+  | ALive => Some (OLive (length (filter (fun e => match e with LOcc _ => true | LVac _ => false end) (l_ent k))), k)
   | _ => Some (ONone, k)
   end.
 
